@@ -1,6 +1,7 @@
 (* C06 - DFA language comparisons, emptiness and finiteness decisions are exact. *)
 From Coq Require Import List Arith Bool.
 From AV Require Import Base.Util Spec.Lang Spec.FA Model.Decide Model.Product Proofs.Decide Proofs.Product Proofs.Finite.
+From AV Require Import Model.HK Proofs.HK.
 Import ListNotations.
 
 (* Each comparison returns a boolean (never an error) for valid operands over the same alphabet,
@@ -67,4 +68,53 @@ Example C06_example :
   valid_dfa A = true /\ valid_dfa B = true /\ same_syms A B = true /\
   issubset_m B A = Ok true /\ lt_m B A = Ok true /\ eq_m A B = Ok false /\ isdisjoint_m A B = Ok false /\
   isfinite_m B = Ok true /\ isfinite_m A = Ok false /\ isempty_m A = Ok false.
+Proof. vm_compute. repeat split. Qed.
+
+(* == as it is coded (Model/HK.v: Hopcroft-Karp over pairs (state, operand index) with the None sink, the
+   networkx union-find (parent forest, path compression, weights) and the explicit stack, run on fuel |Q_A|+|Q_B|+3): for EVERY iteration order
+   `syms` of the input-symbol set and EVERY tie-break `tie` of the union-find among roots of equal weight,
+   the mirror model is the same function of the operands as the specification model eq_m - it returns
+   (never runs out of fuel, never an error) and its boolean is language equality. *)
+Theorem C06_hk_eq_faithful : forall A B tie syms, valid_dfa A = true -> valid_dfa B = true ->
+  (forall a, In a syms <-> In a (d_syms A)) ->
+  hk_eq_gen tie syms A B = eq_m A B /\
+  (same_syms A B = true ->
+   exists b, hk_eq_gen tie syms A B = Ok b /\ (b = true <-> L_dfa A =L L_dfa B)).
+Proof.
+  intros A B tie syms HA HB Hs. split.
+  - exact (hk_eq_gen_eq_m A B HA HB tie syms Hs).
+  - exact (hk_eq_gen_spec A B HA HB tie syms Hs).
+Qed.
+Print Assumptions C06_hk_eq_faithful.
+
+(* the union-find inside the mirror model is networkx's parent forest (walk to the root, compression of the
+   walked path, one re-pointing per union); it is interchangeable, on every run of the loop over any two
+   deterministic systems and for every fuel, with the flat structure the correctness proof uses: path
+   compression and the shape of the forest are not observable *)
+Theorem C06_hk_path_compression_unobservable :
+  forall (X Y : Type) (eqbX : X -> X -> bool) (eqbY : Y -> Y -> bool), eqb_ok eqbX -> eqb_ok eqbY ->
+  forall stepX stepY finX finY tie syms fuel x0 y0,
+    hk_run_forest X Y eqbX eqbY stepX stepY finX finY tie syms fuel x0 y0 =
+    hk_run_flat X Y eqbX eqbY stepX stepY finX finY tie syms fuel x0 y0.
+Proof.
+  intros X Y eqbX eqbY HX HY stepX stepY finX finY tie syms fuel x0 y0.
+  exact (hkf_run_eq X Y eqbX eqbY HX HY stepX stepY finX finY tie syms x0 y0 fuel).
+Qed.
+Print Assumptions C06_hk_path_compression_unobservable.
+
+(* the variant of the loop that also records the arguments of every union call (what the harness observes through
+   a spy on networkx's UnionFind and compares call by call) is the same loop: its answer is hk_eq_gen's *)
+Theorem C06_hk_trace_model : forall tie syms A B, fst (hk_eq_log tie syms A B) = hk_eq_gen tie syms A B.
+Proof. exact hk_eq_log_fst. Qed.
+Print Assumptions C06_hk_trace_model.
+
+Example C06_hk_example :
+  let A := mkdfa [0;1] [0;1] [(0,[(0,1);(1,0)]);(1,[(0,0);(1,1)])] 0 [0] false in  (* even number of 0s *)
+  let B := mkdfa [0;1;2;3] [0;1] [(0,[(0,1);(1,2)]);(1,[(0,2);(1,1)]);(2,[(0,1);(1,0)]);(3,[])] 0 [0;2] true in
+  let C := mkdfa [0;1;2] [0;1] [(0,[(0,1)]);(1,[(0,2)]);(2,[])] 0 [0;2] true in     (* {e, 00} *)
+  valid_dfa A = true /\ valid_dfa B = true /\ valid_dfa C = true /\
+  hk_eq A B = Ok true /\ hk_eq B A = Ok true /\ hk_eq A C = Ok false /\ hk_eq C C = Ok true /\
+  hk_eq_gen (fun _ _ => false) [1;0] A B = Ok true /\ hk_eq_gen (fun _ _ => false) [1;0] C A = Ok false /\
+  hk_eq_log (fun _ _ => true) [0;1] A B =
+    (Ok true, [(inl (Some 0), inr (Some 0)); (inl (Some 1), inr (Some 1)); (inl (Some 0), inr (Some 2))]).
 Proof. vm_compute. repeat split. Qed.
